@@ -266,6 +266,56 @@ where
     }
 }
 
+/// Pratt table given as a `Vec` of BOXED operators whose tokens are keywords / try_map-based parsers
+/// (they report failure through `add_alt_err`), over an atom of numbers and `true`/`false`.
+macro_rules! pratt_vec_body {
+    ($X:ty) => {{
+        use chumsky::pratt::Operator;
+        let atom = choice((
+            text::int::<&'a str, $X>(10).map(|s: &'a str| {
+                hook::cb();
+                Val::Num(num_of(s))
+            }),
+            text::ascii::keyword::<&'a str, _, $X>("true").to(Val::Num(1)),
+            text::ascii::keyword::<&'a str, _, $X>("false").to(Val::Num(0)),
+        ))
+        .padded();
+        let kw = |k: &'static str| text::ascii::keyword::<&'a str, _, $X>(k).padded();
+        atom.pratt(vec![
+            prefix(3, kw("not"), |_, r: Val, _| {
+                hook::cb();
+                Val::Seq(vec![Val::Tok(b'n'), r])
+            })
+            .boxed(),
+            infix(left(1), kw("or"), |l: Val, _, r: Val, _| {
+                hook::cb();
+                Val::Seq(vec![Val::Tok(b'o'), l, r])
+            })
+            .boxed(),
+            infix(right(2), kw("and"), |l: Val, _, r: Val, _| {
+                hook::cb();
+                Val::Seq(vec![Val::Tok(b'a'), l, r])
+            })
+            .boxed(),
+            prefix(4, just('-').padded(), |_, r: Val, _| {
+                hook::cb();
+                Val::Seq(vec![Val::Tok(b'-'), r])
+            })
+            .boxed(),
+            postfix(5, just('!').padded(), |l: Val, _, _| {
+                hook::cb();
+                Val::Seq(vec![Val::Tok(b'!'), l])
+            })
+            .boxed(),
+        ])
+    }};
+}
+
+/// Not Sync (boxed operators are `Rc`s).
+pub fn pratt_vec<'a>() -> impl Parser<'a, &'a str, Val, ExS<'a>> + Clone {
+    pratt_vec_body!(ExS<'a>).then_ignore(end())
+}
+
 macro_rules! other_error_zoo {
     ($m:ident, $E:ty, $at:expr) => {
         pub mod $m {
@@ -321,6 +371,12 @@ macro_rules! other_error_zoo {
                 Ext(Inner::<_, E<'a>>(g, std::marker::PhantomData))
             }
 
+            /// Pratt table as a Vec of boxed operators with keyword tokens (not Sync)
+            pub fn pratt_vec<'a>() -> impl Parser<'a, &'a str, Val, ExS<'a>> + Clone {
+                let g = pratt_vec_body!(X<'a>);
+                Ext(Inner::<_, E<'a>>(g, std::marker::PhantomData))
+            }
+
             /// declare/define recursion, memoized atom, nested-delimiter recovery (not Sync)
             pub fn sexp<'a>() -> impl Parser<'a, &'a str, Val, ExS<'a>> + Clone {
                 let mut node = Recursive::declare();
@@ -352,10 +408,11 @@ other_error_zoo!(empty_err, EmptyErr, |_s| EmptyErr::default());
 other_error_zoo!(cheap_err, Cheap<SimpleSpan<usize>>, |s| Cheap::new(s));
 other_error_zoo!(simple_err, Simple<'a, char, SimpleSpan<usize>>, |s| Simple::new(None, s));
 
-pub const ZOO_NAMES: [&str; 17] = [
+pub const ZOO_NAMES: [&str; 21] = [
     "memo", "pratt", "rx", "valid", "rx2", "list", "arith", "sexp",
     "valid/EmptyErr", "memo/EmptyErr", "valid/Cheap", "memo/Cheap", "valid/Simple", "memo/Simple",
     "sexp/EmptyErr", "sexp/Cheap", "sexp/Simple",
+    "pratt_vec", "pratt_vec/EmptyErr", "pratt_vec/Cheap", "pratt_vec/Simple",
 ];
 /// The zoo grammars that are Send + Sync.
 pub const ZOO_SYNC_IDS: [usize; 11] = [0, 1, 2, 3, 4, 8, 9, 10, 11, 12, 13];
@@ -370,6 +427,7 @@ pub fn pool(z: usize) -> &'static [&'static str] {
         4 => &["12 Abc + 7", "Foo-Bar", "abc", "1 2 3", "", "X * 99 / Yz", "12.5", "12 Ab +", "1 Abc -", "123 A /"],
         5 => &["[a, bc, d]", "[a, (b, c]", "[a,, b]", " [ x1 , y2 , ] ", "[", "[a b]", "[]", "[[a], b]"],
         6 => &["1+2*3", "(1+2)*3", "((((4))))", "1+(2*", "2*/3", "1 + 2 - 3 * 4 / 5", "()", "((1)"],
+        17..=20 => &["true", "not true", "1 and not 2", "not not 1!", "1 or", "and", "-1 and 2 or 3", "true and not false", "notx", "- not 7 !"],
         _ => &["(a b c)", "(a (b c) d)", "(a [b) c)", "((", "a", "(a (b [c] d) e)", "()", "(a))"],
     }
 }
